@@ -75,18 +75,29 @@ func writtenFields(t *Term) map[string]*Term {
 // the setter at distance <= 1, with their committed paths analysed.
 func (c *Check) persistUnits(family, structType string) map[*Func][]*PersistPath {
 	out := map[*Func][]*PersistPath{}
+	getter := c.getterByType(structType)
 	for _, f := range c.handFuncs("keeper", "service") {
+		// a handler whose decisions live in a function that is walked in place for the handler's own rules: the
+		// records are that function's
+		if len(c.P.forceSplice[f]) > 0 {
+			continue
+		}
 		// is f a unit? it has a call event whose effects include Set family at chain <= 1
 		// and f itself is not the plain setter (a setter stores its parameter unchanged)
 		isUnit := false
 		for _, e := range c.P.SummaryOf(f).Effs {
-			if e.Kind == "store" && e.Op == "Set" && e.Family == family && len(e.Chain) <= 1 {
+			if e.Kind == "store" && e.Op == "Set" && e.Family == family {
 				if sv := structIn(e.Val, structType); sv != nil {
 					if sv.Op == "" && strings.HasPrefix(sv.At, "P") {
 						continue // plain setter
 					}
-					if c.constructedInCallee(e, structType) {
+					if len(e.Chain) >= 1 && !c.passedThroughCallee(e, structType) {
 						continue // the callee builds the stored value itself: the callee is the unit
+					}
+					// at a distance from the setter only a value this function builds or modifies makes it the unit
+					// (an element of a list it was given, handed on as it is, does not)
+					if len(e.Chain) >= 2 && sv.Op != "with" && sv.Op != "lit" {
+						continue
 					}
 					isUnit = true
 				}
@@ -100,6 +111,7 @@ func (c *Check) persistUnits(family, structType string) map[*Func][]*PersistPath
 				continue
 			}
 			pp := &PersistPath{Fn: f, Path: pa, Facts: c.closeFacts(pa.AllFacts()), Calls: map[string]int{}}
+			written := map[string]*Term{} // key arguments -> value stored under them so far on this path
 			for i, ev := range pa.Events {
 				if ev.Kind != EvCall {
 					continue
@@ -116,9 +128,18 @@ func (c *Check) persistUnits(family, structType string) map[*Func][]*PersistPath
 						pp.Bank = append(pp.Bank, e)
 					}
 					if e.Kind == "store" && e.Op == "Set" && e.Family == family {
+						// a value a callee builds itself is that callee's record, judged on the callee's own paths
+						if len(e.Chain) >= 1 && !c.passedThroughCallee(e, structType) {
+							continue
+						}
 						if sv := structIn(e.Val, structType); sv != nil {
+							// a record read back after it was stored earlier on this path is the value stored then
+							sv = forwardStored(sv, getter, written)
 							pp.Stored = append(pp.Stored, sv)
 							pp.SetEvs = append(pp.SetEvs, ev)
+							if ks := keyArgs(e); len(ks) > 0 {
+								written[fmtTerms(ks)] = sv
+							}
 						}
 					}
 				}
@@ -259,6 +280,64 @@ func (c *Check) constructedInCallee(e *Eff, structType string) bool {
 		}
 		sv := structIn(ge.Val, structType)
 		if sv != nil && !(sv.Op == "" && strings.HasPrefix(sv.At, "P")) {
+			return true
+		}
+	}
+	return false
+}
+
+// forwardStored replaces, inside a value about to be stored, every read of the record through the family's getter
+// whose arguments are the key arguments of an earlier store on the same path by the value stored then.
+func forwardStored(sv *Term, getter *Func, written map[string]*Term) *Term {
+	if getter == nil || len(written) == 0 || sv == nil {
+		return sv
+	}
+	var rw func(t *Term) *Term
+	rw = func(t *Term) *Term {
+		if t == nil || t.Op == "" {
+			return t
+		}
+		if t.Op == "res" && len(t.A) == 2 && t.A[0].IsAt("0") && t.A[1].Op == getter.Name {
+			var args []*Term
+			for _, a := range t.A[1].A {
+				args = append(args, rw(a))
+			}
+			if v, ok := written[fmtTerms(args)]; ok {
+				return v
+			}
+		}
+		changed := false
+		na := make([]*Term, len(t.A))
+		for i, a := range t.A {
+			na[i] = rw(a)
+			if na[i] != a {
+				changed = true
+			}
+		}
+		if !changed {
+			return t
+		}
+		return simplify(&Term{Op: t.Op, A: na, Typ: t.Typ, Obj: t.Obj, Pos: t.Pos})
+	}
+	return rw(sv)
+}
+
+// passedThroughCallee: the effect is performed below a direct callee which stores one of its own parameters
+// unchanged (a setter, or a helper that registers the record it is given) — the value is the caller's.
+func (c *Check) passedThroughCallee(e *Eff, structType string) bool {
+	if len(e.Chain) == 0 {
+		return true
+	}
+	g := c.P.FuncNamed(e.Chain[0])
+	if g == nil || c.P.pathsBusy[g] {
+		return false
+	}
+	for _, ge := range c.P.SummaryOf(g).Effs {
+		if ge.Kind != "store" || ge.Op != e.Op || ge.Family != e.Family || ge.Pos != e.Pos || len(ge.Chain) != len(e.Chain)-1 {
+			continue
+		}
+		sv := structIn(ge.Val, structType)
+		if sv != nil && sv.Op == "" && strings.HasPrefix(sv.At, "P") {
 			return true
 		}
 	}
